@@ -45,11 +45,69 @@ def fields_read(cls: ClassInfo, fn: FuncInfo, recv: str = "self", _depth: int = 
 UNBOUNDED_MARKERS = ("list", "List", "DerivationTree", "dict", "Dict", "set[", "Set[", "Sequence", "Any")
 
 
+def progress_guards(chk: Check, eng: Engine) -> None:
+    """R06-d.  A scan that adds its successor to the *same* column creates a new item without consuming input; with a nullable symbol
+    under * or + the items of that column then grow without bound (their children differ).  The scanners exclude it by rejecting a match
+    that is not longer than what the state had matched before.  The rejection must hold for every state: an extra conjunct
+    (only for incomplete states, only in some mode) re-opens zero-width matches."""
+    ip = eng.cls(f"{PMOD}.iterative_parser", "IterativeParser")
+
+    def is_len_test(c: ast.AST) -> Optional[str]:
+        """`match_length <= prev` / `match_length < 1` / `match_length == 0` (and mirrored forms) -> text"""
+        if isinstance(c, ast.Compare) and len(c.ops) == 1:
+            l, r, op = c.left, c.comparators[0], c.ops[0]
+            names = {n.id for n in ast.walk(c) if isinstance(n, ast.Name)}
+            if any("match_length" in n or "length" in n for n in names):
+                if isinstance(op, (ast.LtE, ast.Lt, ast.Eq, ast.GtE, ast.Gt)):
+                    return norm(c)
+        return None
+
+    # scan_regex: `if match and match_length <= prev_match_length: match = False`
+    sr = eng.method(ip, "scan_regex", inherited=False)
+    rej = [n for n in walk_local(sr.node) if isinstance(n, ast.If) and any(
+        isinstance(a, ast.Assign) and isinstance(a.value, ast.Constant) and a.value.value is False and any(isinstance(t, ast.Name) and t.id == "match" for t in a.targets) for a in n.body)]
+    if not rej:
+        chk.bad("R06-d", eng.relfile(sr), sr.line, sr.fq, "scan_regex no longer rejects a match that consumed nothing new",
+                "a regex that matches the empty string yields a successor item in the same column: under * or + the column never stops growing", keyparts="regex-no-progress-guard")
+    for n in rej:
+        conj = n.test.values if isinstance(n.test, ast.BoolOp) and isinstance(n.test.op, ast.And) else [n.test]
+        lens = [c for c in conj if is_len_test(c)]
+        extra = [c for c in conj if not is_len_test(c) and not (isinstance(c, ast.Name) and c.id == "match")]
+        if not lens:
+            chk.bad("R06-d", eng.relfile(sr), n.lineno, sr.fq, f"the rejection `{short(n.test, 70)}` does not compare the match length with what was matched before",
+                    "zero-width matches are accepted", keyparts="regex-guard-no-length")
+        elif extra or (isinstance(n.test, ast.BoolOp) and not isinstance(n.test.op, ast.And)):
+            chk.bad("R06-d", eng.relfile(sr), n.lineno, sr.fq, f"the no-progress rejection `{short(n.test, 90)}` applies only when `{short(extra[0], 40) if extra else 'one alternative'}` holds",
+                    "for the other states a regex match of length 0 is accepted: the successor item lands in the same column, and a symbol that can be empty only through "
+                    "such a regex makes `<symbol>+` / `<symbol>*` produce new items for ever", keyparts="regex-guard-conditional")
+        else:
+            chk.ok("R06-d", sr.fq, n.lineno, f"`{short(n.test, 70)}` rejects every match that consumed nothing new")
+    # the default of "already matched" for a fresh state must be 0
+    prev0 = [a for a in walk_local(sr.node) if isinstance(a, ast.Assign) and any(isinstance(t, ast.Name) and t.id == "prev_match_length" for t in a.targets)]
+    prev0.sort(key=lambda a: a.lineno)
+    if prev0 and isinstance(prev0[0].value, ast.Constant) and prev0[0].value.value == 0:
+        chk.ok("R06-d", sr.fq, prev0[0].lineno, "a fresh state has matched 0 characters before (`prev_match_length = 0`)")
+    elif rej:
+        chk.bad("R06-d", eng.relfile(sr), prev0[0].lineno if prev0 else sr.line, sr.fq, "`prev_match_length` does not start at 0", "the rejection threshold for fresh states is not zero", keyparts="regex-prev-default")
+    # scan_bytes: the incomplete branch returns False for `match_length == 0`
+    sb = eng.method(ip, "scan_bytes", inherited=False)
+    rets = [n for n in walk_local(sb.node) if isinstance(n, ast.If) and any(isinstance(r, ast.Return) and isinstance(r.value, ast.Constant) and r.value.value is False for r in n.body)]
+    zero = [n for n in rets if any(is_len_test(c) and "== 0" in norm(c) for c in (n.test.values if isinstance(n.test, ast.BoolOp) and isinstance(n.test.op, ast.Or) else [n.test]))]
+    if zero:
+        chk.ok("R06-d", sb.fq, zero[0].lineno, f"`{short(zero[0].test, 70)}` -> return False: an incomplete literal match of length 0 is not a match")
+    else:
+        chk.bad("R06-d", eng.relfile(sb), sb.line, sb.fq, "scan_bytes accepts an incomplete match of length 0", "an item is copied into its own column without consuming input", keyparts="bytes-zero-incomplete")
+
+
 def run(chk: Check, eng: Engine) -> None:
     chk.rule("R06-a", "ParseState identity (__hash__/__eq__) reads only fields of finite domain and hash-fields are a subset of eq-fields", floor=3)
     chk.rule("R06-b", "Column.states / Column.unique are mutated only inside Column, and add() appends only behind the membership test", floor=3)
     chk.rule("R06-c", "the column index of _consume increases on every path through the loop body and the table is not extended inside the loop", floor=3)
-    chk.not_decided += ["termination of place_repetition_shortcut's upward walk", "termination of context-rule expansion (predict_ctx_rule)"]
+    chk.rule("R06-d", "a terminal scan that completes a match must have consumed input: the no-progress rejection (`match_length <= <already matched>` / "
+             "`match_length == 0`) is unconditional in every scanner", floor=2)
+    chk.not_decided += ["termination of place_repetition_shortcut's upward walk", "termination of context-rule expansion (predict_ctx_rule)",
+                        "termination of the upward walk in construct_incomplete_tree (it depends on the insertion order of the states of a column)"]
+    progress_guards(chk, eng)
 
     ps = eng.cls(f"{PMOD}.parse_state", "ParseState")
     init = eng.method(ps, "__init__")
@@ -245,6 +303,9 @@ _PS = "src/fandango/language/grammar/parser/parse_state.py"
 _COL = "src/fandango/language/grammar/parser/column.py"
 _IP = "src/fandango/language/grammar/parser/iterative_parser.py"
 MUTANTS = [
+    M("regex-progress-guard-only-for-incomplete", _IP, "        if match and match_length <= prev_match_length:\n            match = False\n", "        if match and state.is_incomplete and match_length <= prev_match_length:\n            match = False\n", "R06-d"),
+    M("regex-progress-guard-removed", _IP, "        if match and match_length <= prev_match_length:\n            match = False\n            match_length = 0\n", "", "R06-d"),
+    M("bytes-accepts-empty-incomplete", _IP, "            if not match or match_length == 0:\n                return False\n", "            if not match:\n                return False\n", "R06-d"),
     M("hash-adds-field-eq-ignores", _PS, "                    self._dot,\n                    tuple(self.children),\n", "                    self._dot,\n                    tuple(self.children),\n                    self.incomplete_idx,\n", "R06-a"),
     M("eq-drops-dot", _PS, "            and self.symbols == other.symbols\n            and self._dot == other._dot\n", "            and self.symbols == other.symbols\n", "R06-a"),
     M("column-add-unconditional", _COL, "        if state not in self.unique:\n            self.states.append(state)\n            self.unique.add(state)\n",
@@ -255,6 +316,7 @@ MUTANTS = [
     M("table-extended-in-loop", _IP, "            self.place_repetition_shortcut(table, curr_table_idx)\n", "            self.place_repetition_shortcut(table, curr_table_idx)\n            table.append(Column())\n", "R06-c"),
 ]
 TWINS = [
+    M("twin-regex-progress-guard-mirrored", _IP, "        if match and match_length <= prev_match_length:\n", "        if match and prev_match_length >= match_length:\n", None),
     M("twin-eq-reordered", _PS, "            and self.nonterminal == other.nonterminal\n            and self.position == other.position\n", "            and self.position == other.position\n            and self.nonterminal == other.nonterminal\n", None),
     M("twin-add-else-return", _COL, "                self.dot_map[symbol] = state_list\n            return True\n        return False\n", "                self.dot_map[symbol] = state_list\n            return True\n        else:\n            return False\n", None),
 ]
